@@ -19,23 +19,31 @@ import (
 
 	mux "github.com/cbeuw/Cloak/internal/multiplex"
 	"github.com/cbeuw/Cloak/internal/server"
+	log "github.com/sirupsen/logrus"
 )
 
 func init() {
 	scenarios["C15"] = c15
 	scenarios["C15sub"] = c15sub
+	scenarios["C15hs"] = func(c *ctx) { // the handshake part alone (debugging aid; VERIF_LOG=1 shows the server's log)
+		if os.Getenv("VERIF_LOG") != "" {
+			log.SetOutput(os.Stderr)
+			log.SetLevel(log.TraceLevel)
+		}
+		c15handshakes(c, 0)
+	}
 }
 
 func c15(c *ctx) {
 	o := c.o
-	res := runChild(c, 600*time.Second, "C15sub")
+	res := runChildE(c, 600*time.Second, "C15sub")
 	if res.exit != 0 {
 		if sig := crashSignature(res.stderr); sig != "" {
-			o.V("C15 simultaneous admissions crashed the server process: "+sig, map[string]any{"stderr_tail": tail(res.stderr, 1500),
+			o.V("C15 simultaneous admissions crashed the server process: "+sig, map[string]any{"stderr_tail": tailE(res.stderr, 1500),
 				"note": "see the last `wave` note line for the admissions in flight"})
 			return
 		}
-		o.N(fmt.Sprintf("child exit=%d timedOut=%v stderr=%s", res.exit, res.timedOut, tail(res.stderr, 300)))
+		o.N(fmt.Sprintf("child exit=%d timedOut=%v stderr=%s", res.exit, res.timedOut, tailE(res.stderr, 300)))
 		o.close()
 		os.Exit(3)
 	}
@@ -70,6 +78,10 @@ func c15sub(c *ctx) {
 	}
 	for i := 0; i < n; i++ {
 		c15script(c, i)
+		c.o.flush()
+	}
+	for i := 0; i < n/8; i++ {
+		c15handshakes(c, i)
 		c.o.flush()
 	}
 }
